@@ -7,6 +7,7 @@ mod c10;
 mod c11;
 mod c12d;
 mod c14;
+mod c15;
 mod c13;
 mod c09;
 mod c16;
@@ -45,6 +46,7 @@ fn main() {
         "C04" | "C07" => pcases::run(prop, tier, seed, outdir),
         "C10" => c10::run(tier, seed, outdir),
         "C11" => c11::run(tier, seed, outdir),
+        "C15" => c15::run(tier, seed, outdir),
         "C14" => c14::run(tier, seed, outdir),
         "C19" => c19::run(tier, seed, outdir),
         "C09" => c09::run(tier, seed, outdir),
